@@ -108,6 +108,7 @@ type Exec struct {
 	litReturn     *[]*State
 	nReturns      int
 	replay        *ReplayInfo
+	loopHead      *State
 }
 
 func (x *Exec) fail(pos token.Pos, format string, args ...interface{}) {
@@ -630,13 +631,23 @@ func (x *Exec) invariantLoop(s ast.Stmt, ord int, spec *LoopSpec, st *State, cs 
 		var breaks, conts []*State
 		frame := &ctl{label: label, isLoop: true, breaks: &breaks, continues: &conts}
 		ncs := append(append([]*ctl(nil), cs...), frame)
+		cov := x.oblige(sb, "cover", pfx+".cover.body", "", False, s.Pos())
+		cov.Cover, cov.MustFail = true, true
+		savedHead := x.loopHead
+		headState := sb.clone()
+		x.loopHead = headState
 		outs := body(sb, ncs)
 		outs = append(outs, conts...)
 		var ends []*State
 		for _, o := range outs {
 			ends = append(ends, post(o, ncs)...)
 		}
+		x.loopHead = headState
 		for _, e := range ends {
+			for _, be := range spec.BodyEnsures {
+				g := x.cbool(be.Expr, x.cctx(e, be))
+				x.obligeClause(e, "step", pfx+".step."+be.Label, be, g, s.Pos())
+			}
 			for _, inv := range spec.Invariants {
 				g := x.cbool(inv.Expr, x.cctx(e, inv))
 				x.obligeClause(e, "inv.keep", pfx+".inv.keep."+inv.Label, inv, g, s.Pos())
@@ -647,6 +658,7 @@ func (x *Exec) invariantLoop(s ast.Stmt, ord int, spec *LoopSpec, st *State, cs 
 			}
 		}
 		exits = append(exits, breaks...)
+		x.loopHead = savedHead
 	}
 	return x.mergeMany(exits)
 }
@@ -1156,6 +1168,8 @@ func (x *Exec) finish(st *State, at ast.Node) {
 		retName = x.site("ret", nil)
 	}
 	for _, s := range states {
+		cov := x.oblige(s, "cover", "cover."+retName, "", False, pos)
+		cov.Cover, cov.MustFail = true, true
 		x.checkPost(s, retName, pos)
 	}
 }
